@@ -155,6 +155,21 @@ Theorem C14_page_dom :
 Proof. exact page_dom. Qed.
 Print Assumptions C14_page_dom.
 
+(* ... "and with the link it came from": _scan_page_links gives every candidate of a page the address of the
+   page that was actually SERVED (the response's own address - after a redirect not the one asked for), so a
+   relative href resolves against the right page; and nothing the parser offers is lost on the way. *)
+Theorem C14_links_are_relative_to_the_page_served :
+  forall (V : Type) (pvf : string -> option V) (pvr : string -> option version) (sys : interp) asked r,
+  (forall c b l, In (c, (b, l)) (scan_page V pvf pvr sys asked r) ->
+                 b = resp_url r /\ In (c, l) (offered V pvf pvr sys (resp_events r))) /\
+  (forall c l, In (c, l) (offered V pvf pvr sys (resp_events r)) -> In (c, (resp_url r, l)) (scan_page V pvf pvr sys asked r)).
+Proof.
+  intros V pvf pvr sys asked r. split.
+  - exact (scan_links_relative_to_served_page V pvf pvr sys asked r).
+  - exact (scan_offers_every_link V pvf pvr sys asked r).
+Qed.
+Print Assumptions C14_links_are_relative_to_the_page_served.
+
 Theorem C14_hash_is_links_fragment :
   forall path algo digest,
   has_char (is_ch "#"%char) path = false ->
